@@ -71,6 +71,7 @@ func c10leave() { c10inflight = "" }
 type c10stack struct {
 	s  *stack.Stack[int]
 	st *Stats
+	lg lgTrack
 }
 
 func (r *c10stack) Exec(op []string) string {
@@ -82,7 +83,35 @@ func (r *c10stack) Exec(op []string) string {
 			} else {
 				r.s = &stack.Stack[int]{}
 			}
+			r.lg.reset()
 			return "-"
+		case "pushn", "addn":
+			// bulk form of push/add for the large cases: op[2] single calls with the values op[1], op[1]+1, …;
+			// one observation of the whole state at the end
+			a, n := atoi(op[1]), atoi(op[2])
+			for i := 0; i < n; i++ {
+				if op[0] == "pushn" {
+					r.s.Push(a + i)
+				} else {
+					r.s.Add(a + i)
+				}
+				r.lg.see(r.st, "stack", r.s.Len())
+			}
+			return "-"
+		case "popn":
+			// bulk form of pop: op[1] single calls; reports value, ok, Len and Top after every one of them
+			var sb strings.Builder
+			sb.WriteByte('[')
+			for i, n := 0, atoi(op[1]); i < n; i++ {
+				if i > 0 {
+					sb.WriteByte(' ')
+				}
+				v, ok := r.s.Pop()
+				fmt.Fprintf(&sb, "%s,%d,%d", fmtPop(v, ok), r.s.Len(), r.s.Top())
+				r.lg.see(r.st, "stack", r.s.Len())
+			}
+			sb.WriteByte(']')
+			return sb.String()
 		case "push":
 			r.s.Push(atoi(op[1]))
 			return "-"
@@ -128,10 +157,119 @@ func (r *c10stack) Exec(op []string) string {
 		return "bad-op"
 	})
 	s := r.s
+	r.lg.see(r.st, "stack", s.Len())
 	return fmt.Sprintf("%s len=%d empty=%s top=%d slice=%s", res, s.Len(), fmtBool(s.IsEmpty()), s.Top(), fmtInts(s.Slice()))
 }
 
+// c10seq builds a history that moves a LIFO/FIFO container through a schedule of sizes: in bulk (pushn/popn)
+// or with single operations, observing the whole state at every size it stops at.
+type c10seq struct {
+	ops        []string
+	n, next    int
+	bulk       bool
+	caps       bool   // slice-backed: also stop around the capacities of lgCaps
+	grow, more string // single grow op, bulk grow op ("" when the stream has none)
+	pop, popn  string
+}
+
+func (b *c10seq) add(format string, a ...any) { b.ops = append(b.ops, fmt.Sprintf(format, a...)) }
+
+// to changes the size to target.
+func (b *c10seq) to(target int) {
+	switch d := target - b.n; {
+	case d > 1 && b.bulk:
+		b.add("%s %d %d", b.more, b.next, d)
+		b.next += d
+	case d > 0:
+		for i := 0; i < d; i++ {
+			b.add("%s %d", b.grow, b.next)
+			b.next++
+		}
+	case d < -1 && b.bulk:
+		b.add("%s %d", b.popn, -d)
+	case d < 0:
+		for i := 0; i < -d; i++ {
+			b.add("%s", b.pop)
+		}
+	}
+	b.n = target
+}
+
+// up and down walk through the observation points of lgPoints between the current size and target.
+func (b *c10seq) up(target, small int) {
+	for _, p := range lgPoints(target, small, b.caps) {
+		if p > b.n {
+			b.to(p)
+		}
+	}
+}
+
+func (b *c10seq) down(target, small int) {
+	pts := lgPoints(b.n, small, b.caps)
+	for i := len(pts) - 1; i >= 0; i-- {
+		if pts[i] < b.n && pts[i] >= target {
+			b.to(pts[i])
+		}
+	}
+	b.to(target)
+}
+
+// genC10stackLarge: stacks that grow past a size threshold and are drained below a quarter of it (seeded change
+// C10-stack-pop-shrink-doubles: Pop reallocates once cap > 32 and len < cap/4), from the zero value and New, by
+// Push and by Add, in bulk and one element at a time, then regrown, cleared and regrown again.
+func genC10stackLarge(g *G) {
+	type lc struct {
+		n    int
+		bulk bool
+	}
+	var cs []lc
+	for _, n := range []int{33, 65, 130, 257, 520, 1025} {
+		cs = append(cs, lc{n, true})
+	}
+	for _, n := range []int{33, 40, 65, 130} {
+		cs = append(cs, lc{n, false})
+	}
+	if g.Thorough() {
+		for _, n := range []int{34, 64, 66, 129, 256, 300, 513, 700, 849, 1024, 1281, 2049, 4097, 4100, 5121} {
+			cs = append(cs, lc{n, true})
+		}
+		for _, n := range []int{34, 64, 66, 129, 257, 300, 513} {
+			cs = append(cs, lc{n, false})
+		}
+	}
+	for _, c := range cs {
+		route := g.Intn(4)
+		b := &c10seq{next: 1, bulk: c.bulk, caps: true, grow: "push", more: "pushn", pop: "pop", popn: "popn"}
+		if route&1 == 1 {
+			b.grow, b.more = "add", "addn"
+		}
+		b.add("reset %s", []string{"zero", "new"}[route>>1])
+		N := c.n
+		b.up(N, 12)
+		b.add("peek %d", N-1)
+		b.add("peek %d", N)
+		b.add("peek %d", N/2)
+		b.add("each %d", 2)
+		b.down(0, 40) // every size from 40 down is observed after a single pop
+		b.add("%s", b.pop)
+		// carry-over: the drained stack is used again — regrow to a half, drain below a quarter, past N, Clear, regrow
+		b.up(N/2+1, 0)
+		b.down(N/4-1, 20)
+		b.up(N+1+g.Intn(3), 0)
+		b.add("peek %d", b.n-1)
+		if g.Chance(1, 2) {
+			b.add("clear")
+			b.n = 0
+			b.up(33+g.Intn(8), 0)
+		}
+		b.down(0, 20)
+		b.add("top")
+		g.Each(b.ops)
+	}
+}
+
 func genC10stack(g *G) {
+	genC10stackLarge(g)
 	cases := g.Scale(300, 6000)
 	maxOps := g.Scale(60, 300)
 	next := 1
@@ -183,6 +321,18 @@ type c10mlink struct {
 	cur  [4]*mlink.Cursor[int]
 	st   *Stats
 	skip bool
+	lg   lgTrack
+}
+
+// c10sizeClass names the largest threshold of the large families that n reaches ("" below 33).
+func c10sizeClass(n int) string {
+	cl := ""
+	for _, t := range []int{33, 65, 129, 257, 513, 1025} {
+		if n >= t {
+			cl = fmt.Sprintf(">=%d", t)
+		}
+	}
+	return cl
 }
 
 // closed reports whether the chain of the list reaches its end within a
@@ -212,6 +362,7 @@ func (r *c10mlink) dump(res string) string {
 		r.l.Each(func(v int) bool { all = append(all, v); return true })
 		v0, ok0 := r.l.Peek(0)
 		fmt.Fprintf(&sb, " list=%s len=%d empty=%s peek0=%s", fmtInts(all), r.l.Len(), fmtBool(r.l.IsEmpty()), fmtPop(v0, ok0))
+		r.lg.see(r.st, "mlink", len(all))
 	} else {
 		sb.WriteString(" list=open")
 	}
@@ -263,6 +414,7 @@ func (r *c10mlink) Exec(op []string) string {
 			r.l = &mlink.List[int]{}
 		}
 		r.cur = [4]*mlink.Cursor[int]{}
+		r.lg.reset()
 		return r.dump("-")
 	}
 	if r.skip {
@@ -380,9 +532,27 @@ func (r *c10mlink) Exec(op []string) string {
 				r.st.Note("remove-" + where)
 			}
 			return fmt.Sprint(c.Remove())
+		case "removen":
+			// bulk form of remove for the large cases: op[2] single calls through the same cursor, reporting the
+			// removed values; a panic ends it (the state dump shows how far it got)
+			if !isStale && r.closed() {
+				if cl := c10sizeClass(r.l.Len()); cl != "" && !atEnd {
+					r.st.Note("mlink-drained-by-Remove-from" + cl)
+				}
+			}
+			var got []int
+			for i, n := 0, atoi(op[2]); i < n; i++ {
+				got = append(got, c.Remove())
+			}
+			return fmtInts(got)
 		case "truncate":
 			if !isStale {
 				r.st.Note("truncate-" + where)
+				if r.closed() {
+					if cl := c10sizeClass(r.l.Len()); cl != "" && !atEnd {
+						r.st.Note("mlink-truncate-inside-list" + cl)
+					}
+				}
 			}
 			c.Truncate()
 			return "-"
@@ -401,7 +571,112 @@ func (r *c10mlink) Exec(op []string) string {
 	return r.dump(res)
 }
 
+// genC10mlinkLarge: lists of 40 to 520 elements (up to 1025 in thorough), built from the zero value and NewList
+// by one Add at the end, by Adds of chunks at the end, and by Adds of chunks at the front; cursors at far
+// positions; Push/Set/Remove deep inside; Truncate deep inside with cursors behind the cut (they go stale);
+// drained by Remove from the front below a quarter, emptied one element at a time, regrown through a surviving
+// cursor, cleared.
+func genC10mlinkLarge(g *G) {
+	sizes := []int{40, 65, 130, 257, 520}
+	if g.Thorough() {
+		sizes = append(sizes, 33, 64, 129, 256, 300, 513, 600, 1025)
+	}
+	off := g.Intn(6) // which route a size gets varies with the seed; every route occurs in every run
+	for i, N := range sizes {
+		ops := []string{[]string{"reset zero", "reset new"}[(i+off)/3%2]}
+		add := func(format string, a ...any) { ops = append(ops, fmt.Sprintf(format, a...)) }
+		vals := func(from, n int) string {
+			var sb strings.Builder
+			for j := 0; j < n; j++ {
+				fmt.Fprintf(&sb, " %d", from+j)
+			}
+			return sb.String()
+		}
+		switch route := (i + off) % 3; route {
+		case 0:
+			add("end c0")
+			add("add c0%s", vals(1, N))
+		default:
+			// chunks at the end (the cursor follows what it added) or at the front (a fresh cursor each time)
+			if route == 1 {
+				add("end c0")
+			}
+			for n := 0; n < N; {
+				k := min(1+g.Intn(60), N-n)
+				if route == 2 {
+					add("at c0 0")
+				}
+				add("add c0%s", vals(n+1, k))
+				n += k
+			}
+		}
+		add("len")
+		add("peek %d", N-1)
+		add("peek %d", N)
+		add("each 2")
+		add("at c1 %d", N-1)
+		add("at c2 %d", N/2)
+		add("at c3 %d", N+5)
+		add("last c3")
+		add("find c1 %d", N-3)
+		add("get c1")
+		// edits deep inside
+		add("push c2 7001")
+		add("copy c3 c2")
+		add("remove c2")
+		add("set c2 7002")
+		add("next c2")
+		add("add c2 7003 7004 7005")
+		add("remove c3")
+		add("get c3")
+		n := N + 2
+		// Truncate deep inside; c1 is far behind the cut and goes stale
+		add("at c1 %d", n-2)
+		add("at c2 %d", n/2)
+		add("truncate c2")
+		n = n / 2
+		add("get c1")
+		add("atend c2")
+		add("len")
+		// drain by Remove from the front below a quarter of N, then cut to 40 and empty one element at a time
+		add("at c0 0")
+		if k := n - (N/4 - 1); k > 0 && N/4-1 >= 0 {
+			add("removen c0 %d", k)
+			n -= k
+		}
+		add("last c3")
+		add("get c3")
+		if n > 40 {
+			add("at c2 40")
+			add("truncate c2")
+			n = 40
+			add("get c3")
+		}
+		for ; n > 0; n-- {
+			add("remove c0")
+		}
+		add("remove c0")
+		add("isempty")
+		// carry-over: regrow through the surviving cursor past N, look far, clear, use the list again
+		add("add c0%s", vals(9001, N+1))
+		add("at c1 %d", N)
+		add("get c1")
+		add("at c0 %d", N/3)
+		add("removen c0 %d", N/2)
+		add("len")
+		add("clear")
+		add("get c1")
+		add("end c0")
+		add("add c0%s", vals(1, 33+g.Intn(8)))
+		add("last c1")
+		add("get c1")
+		add("len")
+		g.Each(ops)
+	}
+}
+
 func genC10mlink(g *G) {
+	genC10mlinkLarge(g)
 	val := func() int { return 1 + g.Intn(9) }
 	reg := func() string { return fmt.Sprintf("c%d", g.Intn(4)) }
 	builds := 0
@@ -509,6 +784,7 @@ type c10mlinkq struct {
 	q    *mlink.Queue[int]
 	st   *Stats
 	skip bool
+	lg   lgTrack
 }
 
 func (r *c10mlinkq) Exec(op []string) string {
@@ -529,7 +805,30 @@ func (r *c10mlinkq) Exec(op []string) string {
 				r.q = &mlink.Queue[int]{}
 				r.st.Note("zero-value")
 			}
+			r.lg.reset()
 			return "-"
+		case "addn":
+			// bulk form of add for the large cases: op[2] single calls with the values op[1], op[1]+1, …
+			a, n := atoi(op[1]), atoi(op[2])
+			for i := 0; i < n; i++ {
+				r.q.Add(a + i)
+				r.lg.see(r.st, "mlinkq", r.q.Len())
+			}
+			return "-"
+		case "popn":
+			// bulk form of pop: op[1] single calls; reports value, ok, Len and Front after every one of them
+			var sb strings.Builder
+			sb.WriteByte('[')
+			for i, n := 0, atoi(op[1]); i < n; i++ {
+				if i > 0 {
+					sb.WriteByte(' ')
+				}
+				v, ok := r.q.Pop()
+				fmt.Fprintf(&sb, "%s,%d,%d", fmtPop(v, ok), r.q.Len(), r.q.Front())
+				r.lg.see(r.st, "mlinkq", r.q.Len())
+			}
+			sb.WriteByte(']')
+			return sb.String()
 		case "add":
 			if r.q.IsEmpty() {
 				r.st.Note("add-to-empty")
@@ -568,10 +867,56 @@ func (r *c10mlinkq) Exec(op []string) string {
 	})
 	var all []int
 	r.q.Each(func(v int) bool { all = append(all, v); return true })
+	r.lg.see(r.st, "mlinkq", r.q.Len())
 	return fmt.Sprintf("%s len=%d empty=%s front=%d each=%s", res, r.q.Len(), fmtBool(r.q.IsEmpty()), r.q.Front(), fmtInts(all))
 }
 
+// genC10mlinkqLarge: queues grown past a size threshold (up to 520 in the quick tier, up to 1300 in
+// thorough), drained from the front below a quarter of it, emptied (Pop resets the cached back cursor), used
+// again, cleared and regrown — from the zero value and NewQueue, in bulk (addn/popn) and one element at a time.
+func genC10mlinkqLarge(g *G) {
+	type lc struct {
+		n    int
+		bulk bool
+	}
+	cs := []lc{{33, true}, {65, true}, {130, true}, {257, true}, {520, true}, {33, false}, {65, false}, {100, false}}
+	if g.Thorough() {
+		for _, n := range []int{40, 64, 129, 256, 300, 513, 600, 700, 1025, 1300} {
+			cs = append(cs, lc{n, true})
+		}
+		for _, n := range []int{34, 64, 130, 257} {
+			cs = append(cs, lc{n, false})
+		}
+	}
+	for i, c := range cs {
+		b := &c10seq{next: 1, bulk: c.bulk, grow: "add", more: "addn", pop: "pop", popn: "popn"}
+		b.add("reset %s", []string{"zero", "new"}[(i+g.Intn(2))%2])
+		N := c.n
+		b.up(N, 12)
+		b.add("peek %d", N-1)
+		b.add("peek %d", N)
+		b.add("peek %d", N/2)
+		b.add("each %d", 2)
+		b.down(0, 40) // every size from 40 down is observed after a single pop
+		b.add("%s", b.pop)
+		// carry-over: the emptied queue is used again — regrow to a half, drain below a quarter, past N, Clear, regrow
+		b.up(N/2+1, 0)
+		b.down(N/4-1, 20)
+		b.up(N+1+g.Intn(3), 0)
+		b.add("peek %d", b.n-1)
+		if g.Chance(1, 2) {
+			b.add("clear")
+			b.n = 0
+			b.up(33+g.Intn(8), 0)
+		}
+		b.down(0, 20)
+		b.add("front")
+		g.Each(b.ops)
+	}
+}
+
 func genC10mlinkq(g *G) {
+	genC10mlinkqLarge(g)
 	cases := g.Scale(400, 8000)
 	maxOps := g.Scale(60, 300)
 	next := 1
@@ -618,9 +963,12 @@ func genC10mlinkq(g *G) {
 type c10ring struct {
 	r  [8]*ring.Ring[int]
 	st *Stats
+	lg lgTrack
 }
 
-const c10walkMax = 1000
+// far above the longest chain any sub-history of a generated case can build (a shrink candidate that merges the
+// rings of a large case stays below it), so that "open" always means a chain that does not close
+const c10walkMax = 8000
 
 // c10walk follows step from r until r comes up again; nil if that takes too long.
 func c10walk(r *ring.Ring[int], step func(*ring.Ring[int]) *ring.Ring[int]) []int {
@@ -642,6 +990,12 @@ func c10walk(r *ring.Ring[int], step func(*ring.Ring[int]) *ring.Ring[int]) []in
 func (r *c10ring) dump(res string) string {
 	var sb strings.Builder
 	sb.WriteString(res)
+	if e := r.r[0]; e != nil {
+		// the large cases keep their ring in r0
+		r.lg.see(r.st, "ring", c10len(e))
+	} else {
+		r.lg.see(r.st, "ring", 0)
+	}
 	for i, e := range r.r {
 		if e == nil {
 			fmt.Fprintf(&sb, " r%d=-", i)
@@ -682,6 +1036,7 @@ func c10dist(a, b *ring.Ring[int]) int {
 func (r *c10ring) Exec(op []string) string {
 	if op[0] == "reset" {
 		r.r = [8]*ring.Ring[int]{}
+		r.lg.reset()
 		return r.dump("-")
 	}
 	res := c10try(r.st, func() string {
@@ -708,6 +1063,8 @@ func (r *c10ring) Exec(op []string) string {
 					r.st.Note(fmt.Sprintf("join-different-%dx%d", c10len(a), c10len(b)))
 				case d <= 1:
 					r.st.Note(fmt.Sprintf("join-same-dist%d-noop", d))
+				case d >= 33:
+					r.st.Note("ring-join-same-cuts-segment" + c10sizeClass(d))
 				default:
 					r.st.Note(fmt.Sprintf("join-same-dist%d-of-%d", d, c10len(a)))
 				}
@@ -744,6 +1101,11 @@ func (r *c10ring) Exec(op []string) string {
 				} else if n < 0 {
 					r.st.Note("at-negative")
 				}
+				if res != nil {
+					if cl := c10sizeClass(max(n, -n)); cl != "" {
+						r.st.Note("ring-at-offset" + cl + "-inside")
+					}
+				}
 			}
 			r.r[c10reg(op[1])] = res
 			return "-"
@@ -774,7 +1136,110 @@ func (r *c10ring) Exec(op []string) string {
 	return r.dump(res)
 }
 
+// genC10ringLarge: rings of 40 to 520 elements (up to 900 in thorough; the harness walks at most c10walkMax
+// links) built by Of, by New, by joining two halves and by joining singletons one at a time; At/Peek at far
+// offsets in both directions (inside the cycle, exactly the cycle length, beyond); shrunk by Join of two far
+// elements of the same ring (cuts out the segment between them) below a quarter, emptied by Pop one element at a
+// time, regrown by Join with a fresh ring.
+func genC10ringLarge(g *G) {
+	seq := func(from, n int) string {
+		var sb strings.Builder
+		for i := 0; i < n; i++ {
+			fmt.Fprintf(&sb, " %d", from+i)
+		}
+		return sb.String()
+	}
+	sizes := []int{40, 65, 130, 300, 520}
+	if g.Thorough() {
+		sizes = append(sizes, 33, 64, 129, 257, 513, 600, 900)
+	}
+	off := g.Intn(4)
+	for i, N := range sizes {
+		ops := []string{"reset"}
+		add := func(format string, a ...any) { ops = append(ops, fmt.Sprintf(format, a...)) }
+		route := (i + off) % 4
+		if route == 3 && N > 130 {
+			route = 2
+		}
+		switch route {
+		case 0:
+			add("of r0%s", seq(1, N))
+		case 1:
+			add("new r0 %d", N)
+		case 2:
+			add("of r0%s", seq(1, N/2))
+			add("of r1%s", seq(N/2+1, N-N/2))
+			add("join r7 r0 r1")
+			add("at r1 r0 %d", N) // nil again: keeps the dump short
+			add("at r7 r0 %d", N)
+		default:
+			add("of r0 1")
+			for v := 2; v <= N; v++ {
+				add("of r1 %d", v)
+				add("join r7 r0 r1")
+			}
+			add("at r1 r0 %d", N)
+			add("at r7 r0 %d", N)
+		}
+		n := N
+		add("len r0")
+		add("each r0 2")
+		for _, k := range []int{n - 1, n, n + 1, -(n - 1), -n, n / 2, -(n / 2), 33, 64, 65, 128, 256, 257, -33, -64, -65, -257, 512} {
+			add("peek r0 %d", k)
+		}
+		add("at r1 r0 %d", n-1)
+		add("prev r2 r0") // the same element by the other route
+		add("at r1 r0 %d", -(n - 1))
+		add("at r2 r0 %d", n) // nil
+		// shrink: cut out the segment between r0 and a far element of the same ring, twice; the second time below a
+		// quarter of N
+		for _, keep := range []int{n/2 + 1, max(N/4-1, 2)} {
+			if keep >= n {
+				continue
+			}
+			add("at r1 r0 %d", n-keep+1)
+			add("join r2 r0 r1")
+			add("len r2")
+			add("at r1 r0 %d", n) // nil
+			add("at r2 r0 %d", n) // nil: drop the segment that was cut out
+			n = keep
+			add("peek r0 %d", n-1)
+			add("peek r0 %d", -n)
+		}
+		if n > 40 {
+			add("at r1 r0 %d", n-40+1)
+			add("join r2 r0 r1")
+			add("at r1 r0 %d", n)
+			add("at r2 r0 %d", n)
+			n = 40
+		}
+		// empty by Pop, one element at a time (r0 stays; its successor is popped)
+		for ; n > 1; n-- {
+			add("next r1 r0")
+			add("pop r2 r1")
+		}
+		add("pop r2 r0")
+		add("len r0")
+		// regrow: join the singleton with a fresh ring of N+1 elements, look far again, cut again
+		add("of r3%s", seq(5001, N+1))
+		add("join r7 r0 r3")
+		add("at r3 r0 %d", N+2)
+		add("at r7 r0 %d", N+2)
+		n = N + 2
+		add("len r0")
+		add("peek r0 %d", n-1)
+		add("peek r0 %d", -(n - 1))
+		add("peek r0 %d", n)
+		add("at r1 r0 %d", n-7)
+		add("join r2 r0 r1")
+		add("len r2")
+		add("len r0")
+		g.Each(ops)
+	}
+}
+
 func genC10ring(g *G) {
+	genC10ringLarge(g)
 	seq := func(from, n int) string {
 		var sb strings.Builder
 		for i := 0; i < n; i++ {
